@@ -325,6 +325,9 @@ func c16TimeBlock(e *core.Env, k int) int64 {
 		} else if back, berr := klog.NewTimeFromString(other); berr != nil || !back.IsEqualTo(kt) || back.Format().Use24HourClock != h12 {
 			e.Violation("time-roundtrip", fmt.Sprintf("%q written as %q does not read back to the same value/notation", lit, other), lit)
 		}
+		if s := kt.ToString(); s != lit {
+			e.Violation("time-notation-changed-by-rendering", fmt.Sprintf("time %q: after ToStringWithFormat the same value prints as %q", lit, s), lit)
+		}
 		if !h12 {
 			start = kt
 		}
@@ -470,6 +473,12 @@ func c16Dates(e *core.Env, y int) int64 {
 					e.Violation("date-tostringwithformat", fmt.Sprintf("date %q: ToStringWithFormat(dashes=%v)=%q", lit, !dashes, s), lit)
 				} else if back, berr := klog.NewDateFromString(s); berr != nil || !back.IsEqualTo(kd) || back.Format().UseDashes == dashes {
 					e.Violation("date-roundtrip", fmt.Sprintf("date %q written as %q does not read back", lit, s), lit)
+				}
+				// rendering a value in the other notation is an observation: the value keeps its own notation afterwards
+				if s := kd.ToString(); s != lit || kd.Format().UseDashes != dashes {
+					e.Violation("date-notation-changed-by-rendering", fmt.Sprintf("date %q: after ToStringWithFormat(dashes=%v) the same value prints as %q", lit, !dashes, s), lit)
+				} else if nx := kd.PlusDays(0); nx.ToString() != lit {
+					e.Violation("date-notation-changed-by-rendering", fmt.Sprintf("date %q: PlusDays(0) after ToStringWithFormat prints as %q", lit, nx.ToString()), lit)
 				}
 			}
 		}
